@@ -30,12 +30,28 @@ type Engine struct {
 	overlay   map[string][]byte // synthesised spec files (for executable contracts in replays)
 	broken    map[string]string // synthesised clause functions that no longer type-check
 	keySorts  *Sorts // only for typeKey computations that must be unit independent
+	renamedBare map[string]string // functions under contract that were renamed: old bare name -> new bare name
+	renamedNew  map[string]string // new funcName -> old funcName (for baseline lookups)
+	renamedKey  map[string]string // the same by funcName: "saml.old" -> "saml.new", "(*saml.T).old" -> "saml.new"
+}
+
+// anchorNameIs: does an anchor written for callee `name` denote a call labelled `label` (directly, or because the
+// function under contract of that name was renamed to it)?
+func (e *Engine) anchorNameIs(name, label string) bool {
+	if name == label {
+		return true
+	}
+	if n, ok := e.renamedBare[name]; ok && n == label {
+		return true
+	}
+	return false
 }
 
 func newEngine(l *Loaded) *Engine {
 	e := &Engine{L: l, contracts: map[string]*Contract{}, externs: map[string]*ExternContract{}, funcs: map[string]*ssa.Function{},
 		funcIDs: map[*ssa.Function]int{}, modsets: map[*ssa.Function]ModSet{}, modBusy: map[*ssa.Function]bool{}, wrap64: map[*ssa.Function]bool{},
-		keySorts: newSorts(), mapInv: map[string]string{}, accCache: map[string][]accessorImpl{}, typeInv: map[string]string{}, guards: map[string]string{}}
+		keySorts: newSorts(), mapInv: map[string]string{}, accCache: map[string][]accessorImpl{}, typeInv: map[string]string{}, guards: map[string]string{},
+		renamedBare: map[string]string{}, renamedKey: map[string]string{}, renamedNew: map[string]string{}}
 	for _, sp := range l.SSA {
 		if sp == nil {
 			continue
